@@ -345,7 +345,12 @@ def check_one(kind, variant, public, fmt, mode, seed=0):
     if not eq:
         bad.append(("%s:not-equal" % tag, "%s %s mode=%s: parsed key != original" % (kind, variant, mode)))
     for ff in (FingerprintFormats.MD5_HEX, FingerprintFormats.SHA256_BASE64):
-        if parsed.fingerprint(ff) != key.fingerprint(ff):
+        try:
+            same = parsed.fingerprint(ff) == key.fingerprint(ff)
+        except Exception as e:
+            bad.append(("%s:fingerprint-raises-%s" % (tag, type(e).__name__), "%s %s %s: %r" % (kind, variant, ff, e)))
+            break
+        if not same:
             bad.append(("%s:fingerprint-differs" % tag, "%s %s %s" % (kind, variant, ff)))
     # independent reference: the numbers the harness built the key from
     try:
